@@ -1,7 +1,9 @@
 package main
 
 import (
+	"fmt"
 	"go/types"
+	"sort"
 	"strings"
 
 	"golang.org/x/tools/go/ssa"
@@ -103,7 +105,87 @@ func (p *Prog) layoutValue(e entry, v ssa.Value, at ssa.Instruction, depth int) 
 	if ta, ok := r.(*ssa.TypeAssert); ok && !ta.CommaOk {
 		return "", "unchecked type assertion"
 	}
+	// a Layout parameter of an unexported helper: every call site must pass a verified payload layout
+	if prm, ok := r.(*ssa.Parameter); ok && p.isStageHelper(prm.Parent()) && depth < 3 {
+		g := prm.Parent()
+		node := p.CG.Nodes[g]
+		if node == nil || len(node.In) == 0 {
+			return "", "parameter of " + fname(g) + ", which has no known caller"
+		}
+		entries := map[*ssa.Function]entry{}
+		for _, e2 := range p.entryPoints() {
+			entries[e2.f] = e2
+		}
+		n := 0
+		for _, in := range node.In {
+			site := in.Site
+			if site == nil {
+				return "", "parameter of " + fname(g) + ", called dynamically"
+			}
+			caller := site.Parent()
+			e2, isEntry := entries[caller]
+			if !isEntry {
+				if !p.isStageHelper(caller) {
+					return "", "parameter of " + fname(g) + ", which is also called from " + fname(caller) + " where no verified payload is at hand"
+				}
+				e2 = e
+			}
+			k, d := p.layoutValue(e2, site.Common().Args[paramIndex(prm)], site, depth+1)
+			if k == "" {
+				return "", "parameter of " + fname(g) + "; at its call site in " + fname(caller) + ": " + d
+			}
+			n++
+		}
+		return "derived", fmt.Sprintf("parameter %s of helper %s; all %d call sites pass a layout from the verified payload", prm.Name(), fname(g), n)
+	}
 	return "", "layout value obtained from " + org(v)
+}
+
+// helperSinks lists, for a trusting call of an entry point whose callee is an unexported in_toto helper, the calls made
+// inside that helper (and helpers below it): they run only where the call site runs. unguardedCaller names a caller
+// of one of these helpers that is not on a path from the entry points (the helper would then run without the entry
+// point's checks), "" if there is none.
+func (p *Prog) helperSinks(site ssa.CallInstruction) (inner []ssa.CallInstruction, helpers []*ssa.Function) {
+	seen := map[*ssa.Function]bool{}
+	var walk func(g *ssa.Function, depth int)
+	walk = func(g *ssa.Function, depth int) {
+		if !p.isStageHelper(g) || seen[g] || depth > stageDepth {
+			return
+		}
+		seen[g] = true
+		helpers = append(helpers, g)
+		for _, c := range allCalls(g) {
+			if _, isDefer := c.(*ssa.Defer); isDefer {
+				continue
+			}
+			inner = append(inner, c)
+			walk(c.Common().StaticCallee(), depth+1)
+		}
+	}
+	walk(site.Common().StaticCallee(), 1)
+	return
+}
+
+// foreignCallers: callers of helper g that are neither verification entry points nor stage helpers.
+func (p *Prog) foreignCallers(g *ssa.Function) []string {
+	entries := map[*ssa.Function]bool{}
+	for _, e := range p.entryPoints() {
+		entries[e.f] = true
+	}
+	var out []string
+	if node := p.CG.Nodes[g]; node != nil {
+		for _, in := range node.In {
+			if in.Site == nil {
+				continue
+			}
+			caller := in.Site.Parent()
+			if !entries[caller] && !p.isStageHelper(caller) {
+				out = append(out, fname(caller))
+			}
+		}
+	}
+	sort.Strings(out)
+	return out
 }
 
 // trustingCalls lists the calls of an entry point that consume the layout, the keys, or reach link loading /
@@ -177,35 +259,58 @@ func isLayoutType(t types.Type) bool {
 func trimPkg(s string) string { return strings.TrimPrefix(s, "in_toto.") }
 
 // ---------------------------------------------------------------------------
-// stage lookup with one level of helper inlining (DESIGN §3 A2 summaries, bound 1):
-// a stage call may sit directly in the entry point or in an in_toto helper that the entry point calls.
+// stage lookup through helper frames (DESIGN §3 A2 summaries, inlining bound 3):
+// a stage call may sit directly in the entry point or in an unexported in_toto helper that the entry point calls,
+// itself possibly through another helper (the shared tail of the two entry points extracted into one function, the
+// inspection stage extracted into another, ...). Every relation between stages is decided in the frame where the
+// two call paths diverge; values are mapped towards the entry point through the parameters of the helpers.
 
-type stageCall struct {
-	f    *ssa.Function       // the entry point (frame of reference)
-	call ssa.CallInstruction // the stage call itself (in f or in g)
-	via  ssa.CallInstruction // call in f of the helper g containing `call` (nil if direct)
-	g    *ssa.Function       // helper (nil if direct)
+const stageDepth = 3
+
+type viaFrame struct {
+	via ssa.CallInstruction // the call (in the parent frame) of helper g
+	g   *ssa.Function
 }
 
-// stages lists the calls of callee `name` made by f directly or through one in_toto helper.
+type stageCall struct {
+	f    *ssa.Function       // the entry point (outermost frame)
+	call ssa.CallInstruction // the stage call itself (in the innermost frame)
+	path []viaFrame          // helper frames from the entry point inwards; empty if the call sits directly in f
+}
+
+// isStageHelper: an unexported in_toto function with a body (exported functions are stages of the pipeline themselves).
+func (p *Prog) isStageHelper(g *ssa.Function) bool {
+	if g == nil || g.Blocks == nil || g.Pkg != p.pkg("in_toto") {
+		return false
+	}
+	if g.Object() != nil && g.Object().Exported() {
+		return false
+	}
+	return true
+}
+
+// stages lists the calls of callee `name` made by f directly or through unexported in_toto helpers.
 func (p *Prog) stages(f *ssa.Function, name string) []*stageCall {
 	var out []*stageCall
-	for _, c := range callsIn(f, name) {
-		out = append(out, &stageCall{f: f, call: c})
+	var walk func(fr *ssa.Function, path []viaFrame, onPath map[*ssa.Function]bool)
+	walk = func(fr *ssa.Function, path []viaFrame, onPath map[*ssa.Function]bool) {
+		for _, c := range callsIn(fr, name) {
+			out = append(out, &stageCall{f: f, call: c, path: append([]viaFrame(nil), path...)})
+		}
+		if len(path) >= stageDepth {
+			return
+		}
+		for _, via := range allCalls(fr) {
+			g := via.Common().StaticCallee()
+			if !p.isStageHelper(g) || onPath[g] || fname(g) == name {
+				continue
+			}
+			onPath[g] = true
+			walk(g, append(path, viaFrame{via, g}), onPath)
+			delete(onPath, g)
+		}
 	}
-	for _, via := range allCalls(f) {
-		g := via.Common().StaticCallee()
-		if g == nil || g == f || g.Blocks == nil || g.Pkg != p.pkg("in_toto") || fname(g) == name {
-			continue
-		}
-		// only helpers that are not themselves stages of the pipeline (unexported functions)
-		if g.Object() != nil && g.Object().Exported() {
-			continue
-		}
-		for _, c := range callsIn(g, name) {
-			out = append(out, &stageCall{f: f, call: c, via: via, g: g})
-		}
-	}
+	walk(f, nil, map[*ssa.Function]bool{f: true})
 	return out
 }
 
@@ -218,39 +323,91 @@ func (p *Prog) stage(f *ssa.Function, name string) *stageCall {
 
 // site is the call in the entry point's frame.
 func (s *stageCall) site() ssa.CallInstruction {
-	if s.via != nil {
-		return s.via
+	if len(s.path) > 0 {
+		return s.path[0].via
 	}
 	return s.call
 }
 
-// arg returns argument i of the stage call mapped into the entry point's frame when it is a helper parameter.
-func (s *stageCall) arg(i int) (ssa.Value, ssa.Instruction) {
-	a := s.call.Common().Args[i]
-	if s.via != nil {
-		if prm, ok := resolve(a, s.call).(*ssa.Parameter); ok && prm.Parent() == s.g {
-			return s.via.Common().Args[paramIndex(prm)], s.via
-		}
+// inner is the innermost helper frame (nil if the call sits in the entry point).
+func (s *stageCall) inner() *ssa.Function {
+	if len(s.path) > 0 {
+		return s.path[len(s.path)-1].g
 	}
-	return a, s.call
+	return nil
 }
 
-// helperGuarantees: every success return of helper g is dominated by the nil-error edge of call.
+// frameFn returns the function of frame level k (0 = entry point, k = path[k-1].g).
+func (s *stageCall) frameFn(k int) *ssa.Function {
+	if k == 0 {
+		return s.f
+	}
+	return s.path[k-1].g
+}
+
+// elem returns the instruction that represents the stage in frame level k: the via call of the next frame, or the
+// stage call itself in the innermost frame.
+func (s *stageCall) elem(k int) ssa.CallInstruction {
+	if k < len(s.path) {
+		return s.path[k].via
+	}
+	return s.call
+}
+
+// mapUp maps a value of frame level k towards the entry point as long as it is a parameter of the helper.
+func (s *stageCall) mapUp(v ssa.Value, at ssa.Instruction, k int) (ssa.Value, ssa.Instruction) {
+	for k > 0 {
+		prm, ok := resolve(v, at).(*ssa.Parameter)
+		if !ok || prm.Parent() != s.path[k-1].g {
+			break
+		}
+		v, at = s.path[k-1].via.Common().Args[paramIndex(prm)], s.path[k-1].via
+		k--
+	}
+	return v, at
+}
+
+// arg returns argument i of the stage call mapped towards the entry point's frame through helper parameters.
+func (s *stageCall) arg(i int) (ssa.Value, ssa.Instruction) {
+	return s.mapUp(s.call.Common().Args[i], s.call, len(s.path))
+}
+
+// helperGuarantees: every success return of helper g is dominated by the nil-error edge of call, or returns the
+// call's own results.
 func (p *Prog) helperGuarantees(g *ssa.Function, call ssa.CallInstruction) bool {
 	rets := p.nilErrReturns(g)
 	if len(rets) == 0 {
 		return false
 	}
 	for _, r := range rets {
-		if p.okCallAt(call, r.Block()) {
-			continue
+		if !p.okAtReturn(call, r) {
+			return false
 		}
-		// `return stage(...)` directly
-		ei := errIndex(g)
+	}
+	return true
+}
+
+// okAtReturn: call is known to have succeeded when return r yields a nil error: r lies where the error of call is
+// known nil, or r returns call's own error result.
+func (p *Prog) okAtReturn(call ssa.CallInstruction, r *ssa.Return) bool {
+	if p.okCallAt(call, r.Block()) {
+		return true
+	}
+	ei := errIndex(r.Parent())
+	if ei >= 0 && ei < len(r.Results) {
 		if pc, _ := producer(r.Results[ei], r); pc == call {
-			continue
+			return true
 		}
-		return false
+	}
+	return false
+}
+
+// guaranteesFrom: success of the frame-k element of s implies success of the stage call itself.
+func (p *Prog) guaranteesFrom(s *stageCall, k int) bool {
+	for j := k; j < len(s.path); j++ {
+		if !p.helperGuarantees(s.path[j].g, s.elem(j+1)) {
+			return false
+		}
 	}
 	return true
 }
@@ -260,43 +417,49 @@ func (p *Prog) stageOKAt(s *stageCall, blk *ssa.BasicBlock) bool {
 	if s == nil {
 		return false
 	}
-	if s.via == nil {
-		return p.okCallAt(s.call, blk)
+	ok := p.okCallAt(s.elem(0), blk)
+	if !ok && len(blk.Instrs) > 0 {
+		if r, isRet := blk.Instrs[len(blk.Instrs)-1].(*ssa.Return); isRet {
+			ok = p.okAtReturn(s.elem(0), r)
+		}
 	}
-	return p.okCallAt(s.via, blk) && p.helperGuarantees(s.g, s.call)
+	return ok && p.guaranteesFrom(s, 0)
 }
 
-// stageAfter: stage s runs only where stage g has succeeded (both possibly in helpers).
+// stageAfter: stage s runs only where stage guard has succeeded. Decided in the frame where the two paths diverge.
 func (p *Prog) stageAfter(s, guard *stageCall) bool {
 	if s == nil || guard == nil {
 		return false
 	}
-	if s.g != nil && s.g == guard.g {
-		// same helper: local dominance
-		return p.okCallAt(guard.call, s.call.Block())
+	k := 0
+	for k < len(s.path) && k < len(guard.path) && s.path[k].via == guard.path[k].via {
+		k++
 	}
-	return p.stageOKAt(guard, s.site().Block())
+	return p.okCallAt(guard.elem(k), s.elem(k).Block()) && p.guaranteesFrom(guard, k)
 }
 
-// deepProducer resolves v to (callee name, result index), looking through one in_toto helper whose every
+// deepProducer resolves v to (callee name, result index), looking through unexported in_toto helpers whose every
 // success return yields result j from the same inner call.
 func (p *Prog) deepProducer(v ssa.Value, at ssa.Instruction) (string, int) {
+	return p.deepProducerN(v, at, 0)
+}
+
+func (p *Prog) deepProducerN(v ssa.Value, at ssa.Instruction, depth int) (string, int) {
 	pc, idx := producer(v, at)
 	if pc == nil {
 		return "", -1
 	}
 	g := pc.Common().StaticCallee()
-	if g != nil && g.Blocks != nil && g.Pkg == p.pkg("in_toto") && (g.Object() == nil || !g.Object().Exported()) {
+	if p.isStageHelper(g) && depth < stageDepth {
 		name, j := "", -1
 		for _, r := range p.nilErrReturns(g) {
 			if idx >= len(r.Results) {
 				return calleeName(pc), idx
 			}
-			ipc, iidx := producer(r.Results[idx], r)
-			if ipc == nil {
+			n, iidx := p.deepProducerN(r.Results[idx], r, depth+1)
+			if n == "" {
 				return calleeName(pc), idx
 			}
-			n := calleeName(ipc)
 			if name != "" && (n != name || iidx != j) {
 				return calleeName(pc), idx
 			}
